@@ -169,7 +169,7 @@ class QueryPlanner:
 
         query_traversal(query, _prepare_integration_select)
 
-    def get_integration_select_step(self, select):
+    def get_integration_select_step(self, select, allow_cte=None):
         if isinstance(select.from_table, NativeQuery):
             integration_name = select.from_table.integration.parts[-1]
         else:
@@ -177,7 +177,10 @@ class QueryPlanner:
 
             # is it CTE?
             table_name = table.parts[-1]
-            if integration_name == self.default_namespace and table_name in self.cte_results:
+            if allow_cte is None:
+                # only a bare name can refer to a CTE: a name qualified with the default namespace is a real table
+                allow_cte = len(select.from_table.parts) == 1
+            if allow_cte and integration_name == self.default_namespace and table_name in self.cte_results:
                 select.from_table = None
                 return SubSelectStep(select, self.cte_results[table_name], table_name=table_name)
 
